@@ -368,48 +368,48 @@ inductive Tag
   | ext | mem | keep
   deriving Repr, DecidableEq, Inhabited
 
-def classify (heap : List TRef) : Option Nat → Tag
+def classify (thr : Nat) (heap : List TRef) : Option Nat → Tag
   | none => .keep
   | some id =>
     match heap[id]? with
     | none => .keep
     | some t =>
-      if t.nbytes > sizeThreshold then .ext
+      if t.nbytes > thr then .ext
       else match t with
         | .ext _ _ _ _ => .mem
         | .mem _ _ => .keep
 
 /-- `initializers_to_become_external` as (tensor name, tensor object), in `model.graphs()` order; `tnames[id]` is
 the `name` of tensor object `id` (what the progress callback prints). -/
-def extInputs (heap : List TRef) (tnames : List String) : List (Option Nat) → List (String × Nat)
+def extInputs (thr : Nat) (heap : List TRef) (tnames : List String) : List (Option Nat) → List (String × Nat)
   | some id :: cv =>
-    if classify heap (some id) = .ext then (tnames.getD id "", id) :: extInputs heap tnames cv
-    else extInputs heap tnames cv
-  | none :: cv => extInputs heap tnames cv
+    if classify thr heap (some id) = .ext then (tnames.getD id "", id) :: extInputs thr heap tnames cv
+    else extInputs thr heap tnames cv
+  | none :: cv => extInputs thr heap tnames cv
   | [] => []
 
 /-- `initializers_to_load_to_memory` (tensor objects), in order. -/
-def memInputs (heap : List TRef) : List (Option Nat) → List Nat
-  | some id :: cv => if classify heap (some id) = .mem then id :: memInputs heap cv else memInputs heap cv
-  | none :: cv => memInputs heap cv
+def memInputs (thr : Nat) (heap : List TRef) : List (Option Nat) → List Nat
+  | some id :: cv => if classify thr heap (some id) = .mem then id :: memInputs thr heap cv else memInputs thr heap cv
+  | none :: cv => memInputs thr heap cv
   | [] => []
 
 /-- The two `for value, tensor in zip(values, tensors): value.const_value = tensor` loops: every `ext`-tagged
 initializer takes the next new external tensor, every `mem`-tagged one the next loaded tensor. -/
-def mergeCv (heap : List TRef) : List (Option Nat) → List Nat → List Nat → List (Option Nat)
+def mergeCv (thr : Nat) (heap : List TRef) : List (Option Nat) → List Nat → List Nat → List (Option Nat)
   | [], _, _ => []
   | c :: cv, es, ms =>
-    match classify heap c, es, ms with
-    | .ext, e :: es', _ => some e :: mergeCv heap cv es' ms
-    | .mem, _, m :: ms' => some m :: mergeCv heap cv es ms'
-    | _, _, _ => c :: mergeCv heap cv es ms
+    match classify thr heap c, es, ms with
+    | .ext, e :: es', _ => some e :: mergeCv thr heap cv es' ms
+    | .mem, _, m :: ms' => some m :: mergeCv thr heap cv es ms'
+    | _, _, _ => c :: mergeCv thr heap cv es ms
 
 /-- `unload_from_model(model, base_dir, relative_path, size_threshold_bytes=256)`; `tnames[id]` names tensor object `id`. -/
-def unload (tnames : List String) (dest : String) (verbose : Bool) : M Unit := do
+def unload (thr : Nat) (tnames : List String) (dest : String) (verbose : Bool) : M Unit := do
   let s ← get
-  let memIds ← mapM' extToMem (memInputs s.heap s.cv)          -- convert_tensors_from_external, first
-  let extIds ← convertToExternal dest verbose (extInputs s.heap tnames s.cv)
-  modify fun s' => { s' with cv := mergeCv s.heap s.cv extIds memIds }
+  let memIds ← mapM' extToMem (memInputs thr s.heap s.cv)          -- convert_tensors_from_external, first
+  let extIds ← convertToExternal dest verbose (extInputs thr s.heap tnames s.cv)
+  modify fun s' => { s' with cv := mergeCv thr s.heap s.cv extIds memIds }
 
 /-- `serde.serialize_model`: initializers without a `const_value` are dropped (a warning is logged). -/
 def serializeAux (heap : List TRef) : List (String × Bool) → List (Option Nat) → Except Err Proto
@@ -438,10 +438,10 @@ def renameAll : List (String × Bool) → List (Option Nat) → List String → 
   | _, _, tn => tn
 
 /-- `ir.save(model, path, external_data=rel, callback=…)`. -/
-def irSave (sig : List (String × Bool)) (tnames : List String) (dir name rel : String) (verbose : Bool) : M Unit := do
+def irSave (thr : Nat) (sig : List (String × Bool)) (tnames : List String) (dir name rel : String) (verbose : Bool) : M Unit := do
   let orig := (← get).cv                                  -- initialized_values / tensors
   tryFinally (do
-      unload tnames (joinPath dir rel) verbose
+      unload thr tnames (joinPath dir rel) verbose
       modify fun s => { s with tn := renameAll sig s.cv s.tn }   -- serialize_model renames the tensors it visits
       match serialize sig (← get) with
       | .error e => throw e
@@ -463,12 +463,15 @@ only so that the refutation theorems of the old behaviour remain stated.
 the destination data file (56a0c3c, finding C20-D1);
 `keepNames` — the names of the initializers' tensors are remembered and put back in a `finally` (657db39, finding C20-D4);
 `tqdm` — `importlib.util.find_spec("tqdm") is not None` (environment, not code): the progress-bar branch with its callback
-is taken iff `verbose and tqdm`. -/
+is taken iff `verbose and tqdm`;
+`thr` — `size_threshold_bytes` of `ir.save` (the function passes none, so onnx_ir's default 256 applies): tensors of more
+than `thr` bytes go to the data file, smaller external ones are loaded to memory, smaller in-memory ones stay inline. -/
 structure Cfg where
   deep : Bool := true
   refuse : Bool := true
   keepNames : Bool := true
   tqdm : Bool := true
+  thr : Nat := 256
   deriving Repr, DecidableEq, Inhabited
 
 /-- Initializers (by `const_value`) whose tensor is an `ExternalTensor` stored in `dest`
@@ -489,8 +492,8 @@ def save (cfg : Cfg) (sig : List (String × Bool)) (tnames : List String) (dir n
   if !(guardHits cfg.deep sig s.cv).isEmpty then throw .valueError
   else if cfg.refuse && !(destHits (joinPath dir (name ++ ".data")) s.heap s.cv).isEmpty then throw .valueError
   else if cfg.keepNames then
-    tryFinally (irSave sig tnames dir name (name ++ ".data") verbose) (fun s' => { s' with tn := s.tn })
-  else irSave sig tnames dir name (name ++ ".data") verbose
+    tryFinally (irSave cfg.thr sig tnames dir name (name ++ ".data") verbose) (fun s' => { s' with tn := s.tn })
+  else irSave cfg.thr sig tnames dir name (name ++ ".data") verbose
 
 /-- A model in memory: initializer signature (name, in-subgraph), `const_value` pointers, tensor objects. -/
 structure Model where
